@@ -358,6 +358,10 @@ def rule_each_quantity_on_its_own(ctx: Ctx) -> None:
                 if i_ is not None and ((not truth and only_rejects(i_.body)) or (truth and only_rejects(i_.orelse))):
                     continue
                 t = norm(d.resolve(test))
+                # a test that itself VALIDATES the other quantity (an if/elif ladder of checks that collects the first problem) is an
+                # earlier check too, whichever way it leads to the rejection
+                if any(w in t for o_ in (STR_QUANTITIES - {q}) for w in checks[o_]):
+                    continue
                 other += [t for o in (STR_QUANTITIES - {q}) if re.search(rf"\bself\.{o}\b", t)]
         ctx.add("5-validated", post, cfg.stmt[nodes[0]], not other, f"`{q}` is validated whatever the other quantities are" if not other else
                 f"the validation of `{q}` only runs under `{other[0][:50]}`: with that other quantity set a malformed `{q}` string is accepted at construction", key=f"independent {q}")
